@@ -99,7 +99,7 @@ theorem funcs_req_N (F : Facts) (fg : PGraph) : ∀ n : PNode,
   | .mk k np c subs i => by
     intro h r hr
     cases k with
-    | func d v =>
+    | func d v nm =>
       simp only [funcsOfNode] at h
       simp only [reqNode, List.mem_append]
       exact Or.inr (funcs_req_Bs F fg subs h r hr)
@@ -134,7 +134,7 @@ theorem funcs_req_subN (F : Facts) (fg : PGraph) : ∀ n : PNode,
   | .mk k np c subs i => by
     intro h r hr
     cases k with
-    | func d v => simp [subFuncsOfNode] at h
+    | func d v nm => simp [subFuncsOfNode] at h
     | internal =>
       simp only [subFuncsOfNode] at h
       simp only [reqNode, List.mem_append]
